@@ -146,7 +146,9 @@ SyntaxVisitor::Action TypeCanonicalizer::visitDeclarator_COMMON(const Declarator
         }
     }
 
-    return Action::Skip;
+    // The parameter declarations of a function declarator (and whatever an initializer
+    // declares) hold types of their own: go on into the children.
+    return Action::Visit;
 }
 
 SyntaxVisitor::Action TypeCanonicalizer::visitPointerDeclarator(
@@ -164,6 +166,15 @@ SyntaxVisitor::Action TypeCanonicalizer::visitParenthesizedDeclarator(
 SyntaxVisitor::Action TypeCanonicalizer::visitIdentifierDeclarator(
         const IdentifierDeclaratorSyntax* node)
 {
+    return visitDeclarator_COMMON(node);
+}
+
+SyntaxVisitor::Action TypeCanonicalizer::visitAbstractDeclarator(
+        const AbstractDeclaratorSyntax* node)
+{
+    // An unnamed parameter is a declaration too (a type name's declarator is not).
+    if (!semaModel_->declarationBy(node))
+        return Action::Skip;
     return visitDeclarator_COMMON(node);
 }
 
